@@ -538,6 +538,46 @@ def _confine(repo, col, R="R-C11-confine"):
         raise AnalysisError(f"only {n_table} table stores found in Module/Network methods")
     # ---- registries
     _registry(repo, col, R)
+    widened_receivers(repo, col, R)
+
+
+def widened_receivers(repo, col, R):
+    """A method that writes the rows IN VIEW OF ITS RECEIVER (`self.base.<table>.loc[self._nodes_in_view, ...] = ...`: insert, set,
+    delete_channel, compute_compartment_centers, and whatever calls them on self) edits the whole module when it is called on
+    `self.base`: the base's view is everything.  No method calls one of them with the base as receiver."""
+    W = set()
+    mods = [c for c in ("Module", "Network", "View", "Cell", "Branch", "Compartment") if c in repo.classes]
+    for cls in mods:
+        for name, fi in repo.classes[cls].methods.items():
+            ex = idx.expander(repo, fi)
+            for s_ in ex.stores:
+                if s_.kind == "sub" and s_.base.op == "attr" and s_.base.name in ("loc", "iloc") and s_.key is not None and \
+                        T.find(s_.key, lambda x: x.op == "attr" and x.name in ("_nodes_in_view", "_edges_in_view") and _is_self(x.args[0])) is not None:
+                    W.add(name)
+    if len(W) < 3:
+        raise AnalysisError(f"only {sorted(W)} methods found that write the rows in view")
+    grew = True
+    while grew:
+        grew = False
+        for cls in mods:
+            for name, fi in repo.classes[cls].methods.items():
+                if name in W:
+                    continue
+                if any(isinstance(c, ast.Call) and isinstance(c.func, ast.Attribute) and c.func.attr in W and isinstance(c.func.value, ast.Name)
+                       and c.func.value.id == "self" for c in ast.walk(fi.node)):
+                    W.add(name)
+                    grew = True
+    n = 0
+    for cls in mods:
+        for name, fi in sorted(repo.classes[cls].methods.items()):
+            bad = [c for c in ast.walk(fi.node) if isinstance(c, ast.Call) and isinstance(c.func, ast.Attribute) and c.func.attr in W
+                   and isinstance(c.func.value, ast.Attribute) and c.func.value.attr == "base"]
+            n += 1
+            if bad or name in W:
+                col.check(not bad, R, fi, f"{cls}.{name}: methods that edit the rows in view are called on the view, not on its base", "",
+                          f"`{unparse(bad[0])[:70] if bad else ''}`: `{bad[0].func.attr if bad else ''}` writes the rows in view of its receiver; called on the base it "
+                          f"rewrites every row of the module, also those outside the view the user is editing", node=bad[0] if bad else fi.node)
+    return n
 
 
 def _registry(repo, col, R="R-C11-confine"):
@@ -745,6 +785,24 @@ def _filter(repo, col, R="R-C11-filter"):
             "view = view._at_nodes(level_k, index_k) for (index_k, level_k) in zip(index, self._childviews()), starting from self" if ok else
             f"the indexing step is {det}: index k must be applied at the k-th level below the current one, each step on the view of the previous one",
             node=at[0] if at else fi.node)
+    # only a TUPLE is one index per level; a list / array / slice / int is ONE index for the first level (`net[[0, 2]]` = cells 0 and 2)
+    zc = None
+    for c in at:
+        zc = zc or T.find(ex.term(c), lambda x: x.op == "call" and x.name == "zip")
+    seq = next((a_ for a_ in (zc.args if zc is not None else []) if T.find(a_, lambda x: x.op == "param" and x.name == fi.params[1]) is not None), None)
+    if seq is None:
+        col.unk(R, fi, "__getitem__: only a tuple is split into one index per level", "index sequence not found", node=fi.node)
+    else:
+        ip = fi.params[1]
+        is_p = lambda t: t.op == "param" and t.name == ip
+        wrap = lambda t: t.op == "tuple" and len(t.args) == 1 and is_p(t.args[0])
+        ok_ = seq.op == "ifexp" and seq.args[0].op == "call" and seq.args[0].name == "isinstance" and is_p(seq.args[0].args[0]) and \
+            seq.args[0].args[1].op in ("free", "name", "builtin") and seq.args[0].args[1].name == "tuple" and is_p(seq.args[1]) and wrap(seq.args[2])
+        split_other = seq.op == "ifexp" and T.find(seq.args[0], lambda x: x.op in ("free", "name", "builtin") and x.name in ("list", "ndarray", "Sequence", "Iterable")) is not None
+        col.add(R, fi, "__getitem__: only a tuple is split into one index per level", "DISCHARGED" if ok_ else ("VIOLATED" if split_other else "UNDECIDED"),
+                "index if isinstance(index, tuple) else (index,)" if ok_ else
+                f"the per-level indices are `{seq.short(110)}`: a list / array given as ONE index (`net[[0, 2]]`: cells 0 and 2) is split into one entry per "
+                f"level (cell 0, branch 2)", node=at[0] if at else fi.node)
     fi = repo.method("Module", "_childviews")
     exc_ = idx.expander(repo, fi)
     mr = exc_.merged_return()
